@@ -350,6 +350,8 @@ func childMain() {
 	}
 	for i := 0; i < forks; i++ {
 		c := exec.Command("sleep", "300")
+		// like a background job of a shell script, the forked process keeps the task's stdout and stderr
+		c.Stdout, c.Stderr = os.Stdout, os.Stderr
 		if err := c.Start(); err == nil {
 			fmt.Fprintf(f, "fork %d\n", c.Process.Pid)
 		}
